@@ -215,3 +215,46 @@ def t_fancy(a, idx):
 
 def t_minmax(a, b):
     return np.maximum(a, b) - np.minimum(a, b)
+
+
+# ---- models added later
+def t_rint(x):
+    return np.rint(x)
+
+
+def t_unique_index(a):
+    u, idx = np.unique(a, return_index=True)
+    return idx
+
+
+def t_array3(a, b):
+    return np.array([a, b])
+
+
+def t_reshape_split(a, p, e):
+    return np.reshape(a, (p, e, a.shape[1]))
+
+
+def f_reshape_split(a, p, e):
+    return np.reshape(a, (p, e, a.shape[1]))
+
+
+def t_repeat_rows(a, k):
+    return np.repeat(a, k, axis=0)
+
+
+def t_store_cast(n, x):
+    out = np.zeros(n, dtype=int)
+    out[0] = x
+    return out
+
+
+def f_store_cast(n, x):
+    out = np.zeros(n, dtype=int)
+    out[0] = x
+    return out
+
+
+def t_dict_get(k):
+    d = {"a": 1, "b": 2}
+    return d.get(k, 0)
